@@ -40,6 +40,16 @@ int32 g_i;
 #define GR_MAXCOMP 3
 #endif
 #define GR_CAP (GR_MAXDIM * GR_MAXDIM * GR_MAXCOMP * 2)
+/* GR_CAPBUF (proof runs with symbolic extents): the buffers are allocated with the constant
+   capacity GR_CAP instead of exactly xdim*ydim*ncomp*size bytes (symbolic object sizes cost
+   5 GB / 100 s here).  The exact WRITE frame is still enforced by the assigns clause; exact
+   object sizes (over-reads too) are used in the *_exact obligations, in counterexample mode
+   and in the native replay. */
+#if defined(GR_CAPBUF) && defined(H4V_CBMC) && !defined(H4V_CEX)
+#define GR_BUFSZ(total) GR_CAP
+#else
+#define GR_BUFSZ(total) (total)
+#endif
 
 int GRIil_convert(const void *inbuf, gr_interlace_t inil, void *outbuf, gr_interlace_t outil, int32 dims[2], int32 ncomp, int32 nt)
     /* callers (GRwriteimage/GRreadimage/GRreadlut/chunk I/O) pass validated interlaces, count[] >= 1,
@@ -51,9 +61,11 @@ int GRIil_convert(const void *inbuf, gr_interlace_t inil, void *outbuf, gr_inter
     __CPROVER_requires(0 <= g_x && g_x < dims[0] && 0 <= g_y && g_y < dims[1] && 0 <= g_c && g_c < ncomp && 0 <= g_b && g_b < g_csize)
     /* frame: exactly the xdim*ydim*ncomp*size bytes of the output buffer */
     __CPROVER_assigns(__CPROVER_object_upto(outbuf, (__CPROVER_size_t)IL_TOTAL(dims, ncomp)))
-    __CPROVER_ensures(__CPROVER_return_value == SUCCEED)
+    /* FAIL only when the six small work arrays cannot be allocated (checked in the harness: buffer untouched) */
+    __CPROVER_ensures(__CPROVER_return_value == SUCCEED || __CPROVER_return_value == FAIL)
     /* the permutation: component c of pixel (x,y) moves from its input address to its output address */
-    __CPROVER_ensures(((const uint8 *)outbuf)[IL_IDX(outil, g_x, g_y, g_c, dims[0], dims[1], ncomp) * g_csize + g_b] ==
+    __CPROVER_ensures(__CPROVER_return_value == FAIL ||
+                      ((const uint8 *)outbuf)[IL_IDX(outil, g_x, g_y, g_c, dims[0], dims[1], ncomp) * g_csize + g_b] ==
                       ((const uint8 *)inbuf)[IL_IDX(inil, g_x, g_y, g_c, dims[0], dims[1], ncomp) * g_csize + g_b]);
 
 #ifdef H4V_NATIVE
@@ -92,20 +104,39 @@ h_GRIil_convert(void)
 #ifdef GR_OUTIL
     H4V_ASSUME(outil == GR_OUTIL);
 #endif
+#ifdef GR_NCOMP
+    H4V_ASSUME(ncomp == GR_NCOMP);
+#endif
+#ifdef GR_CS
+    H4V_ASSUME(g_csize == GR_CS);
+#endif
+#ifdef GR_XDIM
+    H4V_ASSUME(xdim == GR_XDIM);
+#endif
+#ifdef GR_YDIM
+    H4V_ASSUME(ydim == GR_YDIM);
+#endif
     H4V_ASSUME(xdim >= 1 && xdim <= GR_MAXDIM && ydim >= 1 && ydim <= GR_MAXDIM && ncomp >= 1 && ncomp <= GR_MAXCOMP);
     H4V_ASSUME(g_csize == 1 || g_csize == 2);
     int32 dims[2];
     dims[0]     = xdim;
     dims[1]     = ydim;
     int32 total = xdim * ydim * ncomp * g_csize;
-    H4V_ND_BUF(uint8, inb, total, GR_CAP);
-    H4V_ND_BUF(uint8, outb, total, GR_CAP);
-    int r = GRIil_convert(inb, inil, outb, outil, dims, ncomp, nt);
+    H4V_ND_BUF(uint8, inb, GR_BUFSZ(total), GR_CAP);
+    H4V_ND_BUF(uint8, outb, GR_BUFSZ(total), GR_CAP);
+    H4V_ASSUME(g_i >= 0 && g_i < total);
+    uint8 old_i = outb[g_i];
+    int   r     = GRIil_convert(inb, inil, outb, outil, dims, ncomp, nt);
+    H4V_CHECK(r == SUCCEED || outb[g_i] == old_i, "il_convert: on failure (no memory) the output buffer is untouched");
     H4V_COVER(r == SUCCEED && inil == outil, "il_convert identity path");
-    H4V_COVER(r == SUCCEED && inil == MFGR_INTERLACE_LINE && outil == MFGR_INTERLACE_COMPONENT && xdim == GR_MAXDIM &&
-                  ydim == GR_MAXDIM && ncomp == GR_MAXCOMP && g_csize == 2, "il_convert line->component, largest case");
-    H4V_COVER(r == SUCCEED && inil == MFGR_INTERLACE_COMPONENT && outil == MFGR_INTERLACE_PIXEL && ncomp > 1 && xdim != ydim,
+    H4V_COVER(r == SUCCEED && inil == MFGR_INTERLACE_LINE && outil == MFGR_INTERLACE_COMPONENT && xdim > 1 && ydim > 1,
+              "il_convert line->component");
+    H4V_COVER(r == SUCCEED && inil == MFGR_INTERLACE_COMPONENT && outil == MFGR_INTERLACE_PIXEL && xdim != ydim,
               "il_convert component->pixel, non-square");
+#ifndef GR_XDIM
+    H4V_COVER(r == SUCCEED && inil == MFGR_INTERLACE_PIXEL && outil == MFGR_INTERLACE_LINE && xdim == 1,
+              "il_convert pixel->line, one column");
+#endif
     H4V_CANARY("GRIil_convert end");
 }
 
@@ -121,20 +152,27 @@ h_il_roundtrip(void)
     H4V_ND(int32, ncomp);
     H4V_ND(int32, nt);
     H4V_ASSUME(IL_VALID(ila) && IL_VALID(ilb));
+#ifdef GR_NCOMP
+    H4V_ASSUME(ncomp == GR_NCOMP);
+#endif
+#ifdef GR_CS
+    H4V_ASSUME(g_csize == GR_CS);
+#endif
     H4V_ASSUME(xdim >= 1 && xdim <= GR_MAXDIM && ydim >= 1 && ydim <= GR_MAXDIM && ncomp >= 1 && ncomp <= GR_MAXCOMP);
     H4V_ASSUME(g_csize == 1 || g_csize == 2);
     int32 dims[2];
     dims[0]     = xdim;
     dims[1]     = ydim;
     int32 total = xdim * ydim * ncomp * g_csize;
-    H4V_ND_BUF(uint8, inb, total, GR_CAP);
-    H4V_ND_BUF(uint8, midb, total, GR_CAP);
-    H4V_ND_BUF(uint8, outb, total, GR_CAP);
+    H4V_ND_BUF(uint8, inb, GR_BUFSZ(total), GR_CAP);
+    H4V_ND_BUF(uint8, midb, GR_BUFSZ(total), GR_CAP);
+    H4V_ND_BUF(uint8, outb, GR_BUFSZ(total), GR_CAP);
     H4V_ASSUME(g_i >= 0 && g_i < total);
     int r1 = GRIil_convert(inb, ila, midb, ilb, dims, ncomp, nt);
     int r2 = GRIil_convert(midb, ilb, outb, ila, dims, ncomp, nt);
-    H4V_CHECK(r1 == SUCCEED && r2 == SUCCEED, "il round trip: both conversions succeed");
-    H4V_CHECK(outb[g_i] == inb[g_i], "il round trip: convert(B->A) after convert(A->B) is the identity");
-    H4V_COVER(ila == MFGR_INTERLACE_LINE && ilb == MFGR_INTERLACE_COMPONENT && ncomp == GR_MAXCOMP, "roundtrip line/component");
+    H4V_CHECK(!(r1 == SUCCEED && r2 == SUCCEED) || outb[g_i] == inb[g_i],
+              "il round trip: convert(B->A) after convert(A->B) is the identity");
+    H4V_COVER(r1 == SUCCEED && r2 == SUCCEED && ila != ilb, "roundtrip both succeed");
+    H4V_COVER(r1 == SUCCEED && r2 == SUCCEED && ila == MFGR_INTERLACE_LINE && ilb == MFGR_INTERLACE_COMPONENT, "roundtrip line/component");
     H4V_CANARY("il_roundtrip end");
 }
